@@ -87,6 +87,7 @@ void workerMain(int k, int nworkers, long start, const std::vector<std::string>&
 		try
 		{
 			ResetCaseFlags();
+			g_buildViaLoad = (c.value("build", "") == "load");
 			auto it = OpRegistry().find(c.at("op").get<std::string>());
 			if (it == OpRegistry().end()) { throw std::runtime_error("vdrive: unknown op"); }
 			SetStage("op");
